@@ -3,13 +3,18 @@
 (* panic (rendering or pipeline panicked).                                                                      *)
 EXTENDS Diag, Json, IOUtils
 Rec == ndJsonDeserialize(IOEnv.TRACE)
+\* the files of the project: the file under test and (two-file runs) its companion.  A diagnostic belongs to the file it names: its
+\* position and quotation are judged against THAT file (a file under test that redefines a built-in class makes the companion
+\* erroneous as well - such a diagnostic rightly names the companion)
+Files(o) == <<o.src>> \o o.others
+FileOf(o, d) == LET S == {j \in 1..Len(Files(o)) : Files(o)[j].path = d.file} IN IF S = {} THEN o.src ELSE Files(o)[CHOOSE j \in S : TRUE]
 Clause(o) ==
     IF o.panic THEN "violation:panic"
     ELSE IF Len(o.diags) = 0 THEN "violation:rejection-without-diagnostic"
-    ELSE IF \E j \in 1..Len(o.diags) : ~NamesFile(o.diags[j], o.src) THEN "violation:diagnostic-does-not-name-its-file"
-    ELSE IF \E j \in 1..Len(o.diags) : ~PosInside(o.diags[j], o.src) THEN "violation:position-outside-the-file"
-    ELSE IF \E j \in 1..Len(o.diags) : ~QuotesVerbatim(o.diags[j], o.src) THEN "violation:quoted-line-not-verbatim"
-    ELSE IF ~FaultLine(o.diags, o.fault_line) THEN "violation:no-position-on-the-fault-line"
+    ELSE IF \E j \in 1..Len(o.diags) : ~NamesFile(o.diags[j], FileOf(o, o.diags[j])) THEN "violation:diagnostic-does-not-name-its-file"
+    ELSE IF \E j \in 1..Len(o.diags) : ~PosInside(o.diags[j], FileOf(o, o.diags[j])) THEN "violation:position-outside-the-file"
+    ELSE IF \E j \in 1..Len(o.diags) : ~QuotesVerbatim(o.diags[j], FileOf(o, o.diags[j])) THEN "violation:quoted-line-not-verbatim"
+    ELSE IF ~FaultLine(SelectSeq(o.diags, LAMBDA d : d.file = o.src.path), o.fault_line) THEN "violation:no-position-on-the-fault-line"
     ELSE "ok"
 VARIABLE r
 Init == r \in 1..Len(Rec)
